@@ -6,19 +6,19 @@
 (* returns the context's error and afterwards no script code runs (no tick advances).  *)
 EXTENDS Integers, Sequences, FiniteSets, TLC, Json
 CONSTANT MaxDepth
-Mains == {"for", "for3", "forrange", "forcond", "recursion", "mapcb", "eachcb", "filtercb", "sortedcb", "trycb",
+Mains == {"for", "for3", "forrange", "forcond", "recursion", "calltree", "mapcb", "eachcb", "filtercb", "sortedcb", "trycb",
           "tryhandler", "defercb",
           "send", "recv", "chaniter", "sleep", "wait", "sendfull", "sendmeth", "sendfullmeth", "recvmeth", "iterbuf"}
 Blocking == {"send", "recv", "chaniter", "sleep", "wait", "sendfull", "sendmeth", "sendfullmeth", "recvmeth", "iterbuf"}     \* mains that tick only a few times before blocking
 SpawnForms == {"go", "spawn", "fnspawn"}
-CloneBodies == {"loop", "sleepy", "recv", "sendfull", "sendthenloop"}
+CloneBodies == {"loop", "sleepy", "recv", "sendfull", "sendthenloop", "calltree"}   \* calltree: runs without any backward jump
 Instants == {"deadline", "tick3", "tick40"}
 Trees == {[depth |-> 0, form |-> "none", body |-> "none"]}
          \cup [depth : 1..MaxDepth, form : SpawnForms, body : CloneBodies]
 InstantsFor(m) == IF m \in Blocking THEN {"deadline", "tick3"} ELSE Instants
 \* one VM used for two runs under the same context, which is done before the second run starts: cancelled while
 \* the VM was idle, or during the first run (VMRun!Start arms a watcher for EVERY run, also when its context is done)
-ReuseMains == {"for", "forrange", "recursion", "eachcb", "sortedcb", "recv", "sendfull", "sleep", "wait"}
+ReuseMains == {"for", "forrange", "recursion", "calltree", "eachcb", "sortedcb", "recv", "sendfull", "sleep", "wait"}
 ReuseScenarios == {[main |-> m, tree |-> [depth |-> 0, form |-> "none", body |-> "none"], at |-> a] :
                      m \in ReuseMains, a \in {"reuse_idle", "reuse_during"}}
 Scenarios == UNION {{[main |-> m, tree |-> t, at |-> a] : t \in Trees, a \in InstantsFor(m)} : m \in Mains} \cup ReuseScenarios
